@@ -30,6 +30,11 @@ type Job struct {
 	Want     []string `json:"want"`     // subset of: graph, objs, edges, del, zeroref, refs
 	DeclPerm uint64   `json:"declperm"` // != 0: permute the top-level declarations of every file (seeded)
 	Register bool     `json:"register"` // make the type-checked package importable by later jobs
+	// BinSet: BinRep holds what the REAL staticcheck binary reported for this package
+	// (kind, display name, absolute file, line, column of each "… is unused (U1000)" line);
+	// both oracles are then also evaluated against that set (bdel, bzero).
+	BinSet bool        `json:"binset"`
+	BinRep [][5]string `json:"binrep"`
 }
 
 type Out struct {
@@ -52,6 +57,11 @@ type Out struct {
 	RefStats  *c07pkg.RefStats  `json:"ref_stats,omitempty"`
 	Counts    map[string]int    `json:"counts,omitempty"`
 	Generated int               `json:"generated_files,omitempty"`
+	NodeNames []string          `json:"node_names,omitempty"` // "<kind> <name>" per node id
+	Facts     []c07pkg.TypeFact `json:"facts,omitempty"`      // method sets from go/types
+	BDel      *c07pkg.DelResult `json:"bdel,omitempty"`       // deletion oracle on what the BINARY reported
+	BZero     *c07pkg.ZeroRef   `json:"bzero,omitempty"`      // zero-reference oracle against what the BINARY reported
+	UsedIn    []string          `json:"used_inside_reported,omitempty"`
 }
 
 type splitmix struct{ s uint64 }
@@ -238,6 +248,29 @@ func runJob(job *Job, imp *c07pkg.Importer) (o *Out) {
 	if want["refs"] {
 		s, desc, st := c07pkg.Refs(l, g)
 		o.Refs, o.RefDesc, o.RefStats = s, desc, &st
+	}
+	if want["nodes"] {
+		o.NodeNames = c07pkg.NodeKindNames(g)
+	}
+	if want["facts"] {
+		o.Facts = c07pkg.TypeFacts(l)
+	}
+	if want["usedin"] {
+		o.UsedIn = c07pkg.UsedInsideReported(l, run.Result)
+	}
+	if job.BinSet {
+		bobjs := c07pkg.BinaryReported(job.BinRep)
+		o.BZero = c07pkg.ZeroRefOracle(l, unused.Result{Unused: bobjs}, genFiles)
+		// the deletion changes the syntax trees: work on a fresh copy of the package
+		l2, errs := c07pkg.Load(srcs, job.PkgPath, imp)
+		if len(errs) > 0 {
+			o.Err = "package does not load a second time: " + errs[0].Error()
+			return o
+		}
+		rep, unmapped := l2.ReportedObjects(bobjs)
+		d := c07pkg.DeleteAndCheck(l2, job.PkgPath, rep, imp)
+		d.Unmapped = unmapped
+		o.BDel = d
 	}
 	if want["del"] {
 		rep, unmapped := l.ReportedObjects(run.Result.Unused)
